@@ -366,7 +366,7 @@ void do_printf_ints(S &sink, char t, format_options opts,
 
 			_fmt_basics::print_int(sink, number, 2, opts.minimum_width,
 					opts.precision ? *opts.precision : 1, zero_padding ? '0' : ' ',
-					opts.left_justify, false, opts.always_sign, opts.plus_becomes_space,
+					opts.left_justify, false, false, false,
 					false, locale_opts, prefix);
 		};
 
@@ -402,7 +402,7 @@ void do_printf_ints(S &sink, char t, format_options opts,
 
 			_fmt_basics::print_int(sink, number, 8, opts.minimum_width,
 					precision, zero_padding ? '0' : ' ',
-					opts.left_justify, false, opts.always_sign, opts.plus_becomes_space,
+					opts.left_justify, false, false, false,
 					false, locale_opts);
 		};
 
@@ -432,7 +432,7 @@ void do_printf_ints(S &sink, char t, format_options opts,
 
 			_fmt_basics::print_int(sink, number, 16, opts.minimum_width,
 					opts.precision ? *opts.precision : 1, zero_padding ? '0' : ' ',
-					opts.left_justify, false, opts.always_sign, opts.plus_becomes_space,
+					opts.left_justify, false, false, false,
 					t == 'X', locale_opts, prefix);
 		};
 
@@ -458,8 +458,8 @@ void do_printf_ints(S &sink, char t, format_options opts,
 			FRG_ASSERT(!opts.alt_conversion);
 			_fmt_basics::print_int(sink, number, 10, opts.minimum_width,
 					opts.precision ? *opts.precision : 1, zero_padding ? '0' : ' ',
-					opts.left_justify, opts.group_thousands, opts.always_sign,
-					opts.plus_becomes_space, false, locale_opts);
+					opts.left_justify, opts.group_thousands, false,
+					false, false, locale_opts);
 		};
 
 		if(szmod == printf_size_mod::char_size) {
